@@ -447,6 +447,7 @@ def run_check(pid, tier, seed, replay):
     # 5. the property's own oracle over the implementation's trace (always run: it is the search for a failing input and
     #    the detector of known findings)
     oracle = P.get("oracle")
+    predicted = {}   # (model run, seed) -> {(line, signature)} the Lean model of the UNCHANGED code itself exhibits
     if oracle:
         for (run, s, ops, impl, model) in all_runs:
             try:
@@ -456,6 +457,16 @@ def run_check(pid, tier, seed, replay):
                     witnesses.append(wv)
             except Exception as ex:  # an oracle crash must not hide anything: report as a failure to check
                 failures.append({"kind": "oracle", "name": "oracle crashed", "detail": repr(ex)})
+            # A listed finding is a defect of the unchanged code, and the Lean model reproduces that code: where a run has a step
+            # model, the same oracle over the MODEL's trace says exactly where the listed defect shows in this history.  A violation
+            # of the implementation that matches a listed finding's pattern but that the model does not exhibit at that line is a
+            # DIFFERENT violation (same symptom class, other cause) and is reported with its input.
+            if not run.get("no_model") and len(model) == len(ops) and model is not impl:
+                try:
+                    predicted[(run["model"], s)] = {(mv["detail"].get("line"), mv["signature"], json.dumps(mv["detail"], sort_keys=True, default=str))
+                                                    for mv in oracle(run, ops, model) if isinstance(mv.get("detail"), dict)}
+                except Exception:
+                    pass
 
     cross = P.get("cross_oracle")
     if cross:
@@ -474,7 +485,13 @@ def run_check(pid, tier, seed, replay):
             if kf["property"] == pid and re.search(kf["match"], wv["signature"]):
                 hit = kf
                 break
-        if hit:
+        key = (wv.get("model"), wv.get("seed"))
+        if hit and key in predicted and isinstance(wv.get("detail"), dict) and wv["detail"].get("line") is not None \
+                and (wv["detail"]["line"], wv["signature"], json.dumps(wv["detail"], sort_keys=True, default=str)) not in predicted[key]:
+            wv["not_the_listed_finding"] = ("matches the pattern of %s, but the Lean model of the unchanged code does not fail in this "
+                                            "way at this line of this history: a different violation" % hit["id"])
+            unlisted.append(wv)
+        elif hit:
             seen_known.setdefault(hit["id"], (hit, wv))
         else:
             unlisted.append(wv)
